@@ -318,7 +318,7 @@ def oracle_alignment_fsc(ck, rng):
     q = np.array([0, 0, 0, 1], dtype=np.float32); p0 = np.zeros(3, dtype=np.float32)
     for it in range(4 if ck.tier == "quick" else 30):
         n = int(rng.choice([8, 16, 12]))
-        shape = (n, n, n) if it % 2 == 0 else (n, n + 2, n)
+        shape = (n, n, n) if it % 2 == 0 else (n, n + 4, 2 * n)
         noise = rng.normal(size=shape).astype(np.float32)
         plane = rng.normal(size=shape[1:]).astype(np.float32)
         extr = np.broadcast_to(plane[None], shape).copy()
@@ -340,6 +340,23 @@ def oracle_alignment_fsc(ck, rng):
                     fails.append(f"score of an image with itself = {sxx}")
                 if np.isfinite(sxy) and abs(sg - sxy) > 1e-4:
                     fails.append(f"changed by rescaling one input: {sxy:.5f} -> {sg:.5f}")
+                if not kwt:
+                    # the score is the mean, over the frequency shells of width 1 / min(box) (|f| in cycles per voxel) where both images have power, of
+                    # Re sum(F1 conj F2) / sqrt(sum|F1|^2 sum|F2|^2) -- also for boxes with unequal sides (spherical, not ellipsoidal shells)
+                    fa, fb = np.fft.fftn(x.astype(np.float64)), np.fft.fftn(y.astype(np.float64))
+                    fr = np.meshgrid(*[np.fft.fftfreq(s_) for s_ in shape], indexing="ij")
+                    rad = np.sqrt(sum(f_ ** 2 for f_ in fr)) * min(shape)
+                    lab_ = np.floor(rad + 1e-9).astype(int)
+                    vals = []
+                    for l_ in range(int(lab_.max()) + 1):
+                        m_ = lab_ == l_
+                        den = np.sqrt((np.abs(fa[m_]) ** 2).sum() * (np.abs(fb[m_]) ** 2).sum())
+                        if den > 1e-9 * np.sqrt((np.abs(fa) ** 2).sum() * (np.abs(fb) ** 2).sum()) / lab_.size:
+                            vals.append(float((fa[m_] * fb[m_].conj()).real.sum() / den))
+                    ref_ = float(np.mean(vals))
+                    # (bins within rounding of a shell boundary may fall on either side: cubic boxes have many such ties, so allow for them)
+                    if np.isfinite(sxy) and abs(sxy - ref_) > 0.02:
+                        fails.append(f"score {sxy:.4f} is not the mean per-shell correlation {ref_:.4f} over shells of width 1/min(box)")
             except Exception as e:  # noqa
                 fails = [f"raised {type(e).__name__}: {e}"]
             for fl in fails[:2]:
